@@ -31,6 +31,19 @@ pub fn universe(name: &str) -> Vec<Key> {
             v.sort();
             v
         }
+        // the first two layers of the root page: keys with the leading bits 00, 01, 10, 11 (Q4) and
+        // 000 … 111 (Q8)
+        "Q4" | "Q8" => {
+            let n = if name == "Q4" { 4u8 } else { 8 };
+            let shift = if name == "Q4" { 6 } else { 5 };
+            (0..n)
+                .map(|i| {
+                    let mut k = [0x11u8.wrapping_mul(i + 1); 32];
+                    k[0] = (i << shift) | (k[0] & ((1 << shift) - 1));
+                    k
+                })
+                .collect()
+        }
         // four keys, for exhaustive single-batch enumeration
         "U4" => {
             let base = key_from_bits("1010010110", false);
